@@ -67,7 +67,7 @@ def fill_cov(run, stats, rule):
     run.cov.update(evaluations=stats.get("invocations", 0), distinct_nontrivial=len(stats.get("distinct_signatures", {})),
                    rule=rule + "; distinct = distinct (batch size, request outcome, number of handler calls, sequence of receipt classes) signatures",
                    samples=(stats.get("samples") or [])[:5])
-    for k in ("batches", "invocations", "receipt_classes", "handler_calls", "requests_failed_as_a_whole", "by_batch_size",
+    for k in ("batches", "invocations", "receipt_classes", "handler_calls", "requests_failed_as_a_whole", "by_batch_size", "resource_method_capability_runs",
               "batches_with_duplicate_invocation"):
         if k in stats:
             run.cov[k] = stats[k]
